@@ -4,6 +4,7 @@ import (
 	"fmt"
 	"strings"
 
+	"github.com/bytedance/sonic"
 	"github.com/bytedance/sonic/ast"
 	"github.com/bytedance/sonic/encoder"
 	"github.com/bytedance/sonic/unquote"
@@ -68,6 +69,20 @@ func runOne(line string) {
 		o = []string{hx(sutf8.CorrectWith(mkbuf(pre, len(pre)), unhex(f[4]), string(unhex(f[3]))))}
 	case "GV":
 		o = []string{btxt(sutf8.Validate(unhex(f[1])))}
+	case "JS":
+		doc := append(append([]byte(`{"S":"`), unhex(f[2])...), `"}`...)
+		var b strTag
+		var e error
+		if f[1] == "1" {
+			e = apiUnicodeErrors.Unmarshal(doc, &b)
+		} else {
+			e = sonic.Unmarshal(doc, &b)
+		}
+		if e != nil {
+			o = []string{"err"}
+		} else {
+			o = []string{"ok", hx([]byte(b.S))}
+		}
 	case "AQ":
 		pre := unhex(f[1])
 		o = []string{hx(ast.VerifQuoteString(mkbuf(pre, len(pre)), string(unhex(f[2]))))}
